@@ -53,6 +53,8 @@ class SymStream:
         out = mk_seq(self.el[self.pos:self.pos + take], bytes)
         self.pos += take
         self.log.append(('read', take))
+        if isinstance(n, int) and not isinstance(n, SInt) and n > take:
+            self.short_reads.append((n, take))
         return out
 
     def seek(self, off, whence=0):
